@@ -104,6 +104,16 @@ var respHeaderPalette = [][]hdrKV{
 	{{"Date", "Mon, 01 Jan 2024 00:00:00 GMT"}},
 	{{"Content-Language", "en"}},
 	{{"X-Multi", "a"}, {"X-Multi", "b"}},
+	bigCookies(48, 1000), // a response head of ~48 KB (session stores, CSP/Link lists): the head has no small limit
+	bigCookies(6, 9000),
+}
+
+func bigCookies(n, size int) []hdrKV {
+	var out []hdrKV
+	for i := 0; i < n; i++ {
+		out = append(out, hdrKV{"Set-Cookie", fmt.Sprintf("c%d=%s; Path=/", i, strings.Repeat(string(rune('a'+i%26)), size))})
+	}
+	return out
 }
 
 func genExchange(x *X, env *sysEnv, cl *sClient, streaming bool) *exchange {
